@@ -50,6 +50,7 @@ type Contract struct {
 	Asserts  []AssertAt
 	Params   []string // for iface/extern/callback: optional explicit parameter names
 	Refines  []string // interface method contracts this function must satisfy
+	Is       string   // callback only: the function value called here is exactly this static function (checked at the call: callee.is), whose contract is then used
 	GhostSets []GhostSet // ghost assignments performed by the function (ghost code)
 	StepInvs []Clause // asserted (obligation, then fact) after every call of the function, once its names are bound
 	MayPanicCalls []string // callees whose calls in this function may panic (user values behind a general interface)
@@ -154,7 +155,7 @@ var clauseKeywords = map[string]bool{
 	"props": true, "arith": true, "flags": true, "requires": true, "ensures": true, "modifies": true,
 	"loop": true, "track": true, "panics": true, "statement": true, "refines": true, "ghost-set": true, "params": true, "assert": true, "lemma": true,
 	"guarded": true, "onceinit": true, "nolock": true,
-	"theory": true, "sort": true, "const": true, "fun": true, "smt": true, "macro": true, "ghost-at": true, "ghost-set-post": true, "trusted-axiom": true, "typeinv": true, "immutable": true, "assumes": true, "maypanic-call": true, "stepinv": true,
+	"theory": true, "sort": true, "const": true, "fun": true, "smt": true, "macro": true, "ghost-at": true, "ghost-set-post": true, "trusted-axiom": true, "typeinv": true, "immutable": true, "is": true, "assumes": true, "maypanic-call": true, "stepinv": true,
 }
 
 func parseContracts(srcs []contractSource) (*Contracts, error) {
@@ -244,6 +245,12 @@ func parseContracts(srcs []contractSource) (*Contracts, error) {
 				if err != nil {
 					return nil, err
 				}
+				fs[0] = aliasRe.ReplaceAllStringFunc(fs[0], func(m string) string { // same canonical spelling as typeString
+					if m == "byte" {
+						return "uint8"
+					}
+					return "int32"
+				})
 				if _, dup := cs.TypeInvs[fs[0]]; dup {
 					return nil, errf("duplicate typeinv for %s", fs[0])
 				}
@@ -465,6 +472,8 @@ func parseContracts(srcs []contractSource) (*Contracts, error) {
 					cur.NoLock = append(cur.NoLock, c)
 				case "refines":
 					cur.Refines = append(cur.Refines, strings.Fields(rest)...)
+				case "is":
+					cur.Is = strings.TrimSpace(rest)
 				case "params":
 					cur.Params = strings.Fields(strings.ReplaceAll(rest, ",", " "))
 				case "statement":
